@@ -52,6 +52,8 @@ def norm_bits(b):
 def run(ctx):
     ok, res = core.proof_step(ctx)
     rng = ctx.rng
+    from rdkit import RDLogger
+    RDLogger.DisableLog('rdApp.*')          # RDKit's C++ parser messages for the unreadable inputs
     cases, payloads, mexpr = [], {}, {}
     found_input = False
     dist = {'naming_strings': 0, 'entry': {}, 'first_class': {}, 'level': {}, 'all_iters': 0, 'save': 0, 'unnamed': 0,
@@ -386,7 +388,10 @@ def run(ctx):
 
     for k in cases[:2] + [c for c in cases if c[0].startswith('entry/')][:3] + [c for c in cases if c[0].startswith('smiles/')][:1]:
         ctx.sample({'case': k[0], 'input_and_implementation_result': payloads[k[0]], 'model_check': k[1][:300]}, maxn=7)
-    nbad = core.compare_cases(ctx, cases, IMPORTS, 'C14 entry points', payloads, model_expr=mexpr, shard=40)
+    name_cases = [c for c in cases if c[0].startswith('name/')]
+    other_cases = [c for c in cases if not c[0].startswith('name/')]
+    nbad = core.compare_cases(ctx, name_cases, IMPORTS, 'C14 MolItemName', payloads, model_expr=mexpr, shard=250)
+    nbad += core.compare_cases(ctx, other_cases, IMPORTS, 'C14 entry points', payloads, model_expr=mexpr, shard=25)
     found_input = found_input or nbad > 0
     ctx.coverage['rule'] = ('shipped SDF molecules cut to 1-6 conformers x first in {-1,1,2,n-1,n,n+3} (a few 0/<-1 and the absent default 3) x level '
                             '{-1,None,absent,0,1,2,3,5} x all_iters x bits {absent,None,-1,32,1024,4096} x seven pass-through options x four entry points '
